@@ -9,7 +9,11 @@ package storage
 // replaced in this code base.
 
 import (
+	"context"
+	"fmt"
 	"time"
+
+	"github.com/eko/gocache/lib/v4/store"
 
 	"github.com/eko/gocache/lib/v4/cache"
 	"github.com/eko/gocache/store/go_cache/v4"
@@ -118,4 +122,29 @@ func (s verifGatedStore) GetAndDelete(key string, target interface{}) error {
 func (s verifGatedStore) PutIfAbsent(key string, value interface{}, options ...SessionOption) (bool, error) {
 	s.gate("PutIfAbsent", key)
 	return s.inner.PutIfAbsent(key, value, options...)
+}
+
+
+// ---- gated underlying cache (C02 wave 9) --------------------------------------------------------------------------------------
+// NewVerifGatedCacheDB is the real InMemorySessionDatabase (real GetStore, real SessionStoreImpl methods) over a go-cache client whose
+// Get / Set are announced to gate before they are forwarded unchanged: a harness can park a request BETWEEN the Get and the Put that
+// PutIfAbsent / GetAndDelete consist of, which is where the database-wide mutex has to keep other requests out.
+type verifGatedCache struct {
+	store.StoreInterface
+	gate func(method, key string)
+}
+
+func (g verifGatedCache) Get(ctx context.Context, key any) (any, error) {
+	g.gate("Get", fmt.Sprint(key))
+	return g.StoreInterface.Get(ctx, key)
+}
+
+func (g verifGatedCache) Set(ctx context.Context, key any, value any, options ...store.Option) error {
+	g.gate("Set", fmt.Sprint(key))
+	return g.StoreInterface.Set(ctx, key, value, options...)
+}
+
+func NewVerifGatedCacheDB(gate func(method, key string)) *InMemorySessionDatabase {
+	client := gocacheclient.New(defaultSessionDataTTL, sessionStorePruneInterval)
+	return &InMemorySessionDatabase{underlying: cache.New[[]byte](verifGatedCache{go_cache.NewGoCache(client), gate})}
 }
